@@ -15,7 +15,7 @@ from sqlcase import RL, DISK_LAYOUTS
 
 TYPES = ("INT", "BIGINT", "BOOLEAN", "VARCHAR", "DOUBLE", "DECIMAL(10,2)", "DATE")
 FEATURES = dict(full_join=True, not_in_sub=True, like=True, bool_col_cond=True, offset_no_limit=True, case_no_else=True,
-                corr_in_sub=True, null_lit=False, cross=True, derived_limit=True, scalar_sub=True)
+                corr_in_sub=True, null_lit=True, cross=True, derived_limit=True, scalar_sub=True)
 
 
 def _site(x):
